@@ -77,6 +77,7 @@ struct World {
   }
 };
 
+static ccl::EntityUID gF1 = 0;   // the term-function the histories redefine (context edits between calls)
 static void build(World& w) {
   auto& m = w.model;
   const auto x1 = m.Emplace(CstType::base);
@@ -85,7 +86,7 @@ static void build(World& w) {
   const auto s1 = m.Emplace(CstType::structured, BOOL + "(X1\xC3\x97X1)");
   m.Emplace(CstType::term, "X1" + UNION + "X1");                                  // D1
   m.Emplace(CstType::term, "Pr1(S1)");                                            // D2
-  m.Emplace(CstType::function, "[\xCE\xB1\xE2\x88\x88" + BOOL + "(R1)] \xCE\xB1" + UNION + "\xCE\xB1");  // F1
+  gF1 = m.Emplace(CstType::function, "[\xCE\xB1\xE2\x88\x88" + BOOL + "(R1)] \xCE\xB1" + UNION + "\xCE\xB1");  // F1
   m.Emplace(CstType::predicate, "[\xCE\xB1\xE2\x88\x88" + BOOL + "(X1)] \xCE\xB1=\xCE\xB1");            // P1
   m.Emplace(CstType::axiom, "D1=D1");                                             // A1
   for (int i = 0; i < 3; ++i) m.Values().AddBasicElement(x1, "a" + std::to_string(i));
@@ -144,6 +145,33 @@ int main() {
           "\xE2\x88\x80\xCE\xBE\xE2\x88\x88X1 1=1", "D{\xCE\xBE\xE2\x88\x88X1 | 1=1}", "\xE2\x88\x80\xCE\xBE\xE2\x88\x88X1 \xCE\xBE=\xCE\xBE & \xE2\x88\x80\xCE\xBE\xE2\x88\x88X1 \xCE\xBE=\xCE\xBE" };
         static const std::vector<std::string> partway = { "R{\xCE\xBE:=\xE2\x88\x85 | {\xCE\xBE}}", "R{\xCE\xBE:=\xE2\x88\x85 | \xCE\xBE\xE2\x88\xAAX1\xE2\x88\xAAPr1(\xCE\xBE)}", "R{\xCE\xBE:=\xE2\x88\x85 | 1=1 | \xE2\x84\xAC(\xCE\xBE)}",
           "F1[X1, X1, X1]", "R{\xCE\xBE:=X1 | card(\xCE\xBE)}", "I{\xCE\xBE | \xCE\xBE:\xE2\x88\x88X1; \xCE\xBE:\xE2\x88\x88X1}", "\xE2\x88\x80\xCE\xBE\xE2\x88\x88X1 \xE2\x88\x80\xCE\xBE\xE2\x88\x88X1 \xCE\xBE=\xCE\xBE" };
+        // the CONTEXT may change between two calls of the same analyser: the answer depends on the current context only
+        // (seeded change C18-3: a memo of value classes per function call survives the redefinition of the function).
+        // F1 is redefined so that the value class of F1[property argument] flips between 'as the argument' and 'value'.
+        if (i % 5 == 4) {
+          static const std::vector<std::string> bodies = {
+            "[\xCE\xB1\xE2\x88\x88\xE2\x84\xAC(R1)] \xCE\xB1\xE2\x88\xAA\xCE\xB1", "[\xCE\xB1\xE2\x88\x88\xE2\x84\xAC(R1)] X1\xE2\x88\xAAX1",
+            "[\xCE\xB1\xE2\x88\x88\xE2\x84\xAC(R1)] \xCE\xB1\\\xCE\xB1", "[\xCE\xB1\xE2\x88\x88\xE2\x84\xAC(R1)] D1" };
+          w.model.SetExpressionFor(gF1, sub.pick(bodies));
+          emit("c18 context-edit", "ok");
+        }
+        static const std::vector<std::string> propCalls = { "F1[\xE2\x84\xAC(X1)]", "card(F1[\xE2\x84\xAC(X1)])", "F1[\xE2\x84\xAC(X1)]\xE2\x88\xAAF1[\xE2\x84\xAC(X1)]",
+          "F1[\xE2\x84\xAC(X1\xC3\x97X1)]", "X1\xE2\x88\x88F1[\xE2\x84\xAC(X1)]", "F1[X1]", "D{\xCE\xBE\xE2\x88\x88F1[\xE2\x84\xAC(X1)] | 1=1}" };
+        if (i % 5 == 0 || i % 5 == 3) {
+          const auto& ptext = sub.pick(propCalls);
+          rslang::Auditor fresh{ schema, schema.VCContext(), schema.ASTContext() };
+          const auto a = auditOutcome(auditor, ptext, rslang::Syntax::MATH), b = auditOutcome(fresh, ptext, rslang::Syntax::MATH);
+          emit("c18 audit 1 " + vh::hex(ptext), a == b ? "1" : nosp("0:reused[" + a + "]fresh[" + b + "]"));
+          auto freshS = schema.MakeAuditor();
+          auto run = [&](SchemaAuditor& au) {
+            const bool ok = au.CheckConstituenta("D7", ptext, CstType::term);
+            std::string out = std::string(ok ? "ok" : "fail") + "|" + errs(au.Errors());
+            if (ok) out += "|" + typeOf(au.GetType()) + "|v=" + (au.CheckValue() ? std::to_string(static_cast<int>(au.GetValueClass())) : std::string("x"));
+            return out;
+          };
+          const auto c = run(*schemaAuditor), d = run(*freshS);
+          emit("c18 cst 6 " + vh::hex(ptext), c == d ? "1" : nosp("0:reused[" + c + "]fresh[" + d + "]"));
+        }
         const int phase = i % 4;
         const bool directed = phase >= 2;
         const auto& text = phase == 2 ? (sub.chance(1, 2) ? sub.pick(funcDefs) : sub.pick(partway)) : (phase == 3 ? sub.pick(plain) : sub.pick(inputs()));
